@@ -80,6 +80,19 @@ func genC09(tier string, r *rng, emit func(string)) {
 			}
 		}
 	}
+	// inner dimensions and lengths around the block sizes of unrolled / vectorised loops
+	for _, dt := range []string{"f64", "f32"} {
+		for _, k := range []int{1, 2, 3, 4, 5, 7, 8, 9, 15, 16, 17, 31, 32, 33} {
+			emit(fmt.Sprintf("prog %s new:rm:%d:-3;new:rm:%d:1;inner:0:1", dt, k, k))
+			emit(fmt.Sprintf("prog %s new:rm:2,%d:-3;new:rm:%d:1;lin:matvec:0:1:safe", dt, k, k))
+			emit(fmt.Sprintf("prog %s new:rm:2,%d:-3;new:rm:%d,3:1;lin:matmul:0:1:safe", dt, k, k))
+			emit(fmt.Sprintf("prog %s new:rm:%d:-3;new:rm:3:1;lin:outer:0:1:safe", dt, k))
+			if k <= 9 {
+				emit(fmt.Sprintf("prog %s new:rm:%d,%d:-3;trace:0", dt, k, k))
+				emit(fmt.Sprintf("prog %s new:rm:%d,2:-3;T:0:1,0;new:rm:%d,2:1;lin:matmul:0:1:safe", dt, k, k))
+			}
+		}
+	}
 	// the dispatching Dot (matrix.vector, vector.matrix, matrix.matrix) and products given BOTH a reuse
 	// and an incr tensor, on contiguous and lazily transposed operands
 	for _, dt := range []string{"f64", "f32"} {
